@@ -3,6 +3,15 @@
 (applied and reverted one at a time); prints one line per seed.  Usage: seedrun.py [dir ...]"""
 import json, os, subprocess, sys, glob
 dirs = sys.argv[1:] or sorted(glob.glob('/verif/seeded/C*/'))
+# the checks rewrite /verif/evidence on every run: keep the records of the UNCHANGED tree and put them back at the end
+import shutil, tempfile, atexit
+_keep = tempfile.mkdtemp(prefix='evidence-keep-')
+shutil.copytree('/verif/evidence', _keep + '/evidence')
+def _restore():
+    shutil.rmtree('/verif/evidence', ignore_errors=True)
+    shutil.copytree(_keep + '/evidence', '/verif/evidence')
+    shutil.rmtree(_keep, ignore_errors=True)
+atexit.register(_restore)
 for d in dirs:
     d = d.rstrip('/')
     name = os.path.basename(d)
